@@ -150,6 +150,9 @@ class Repo:
         for mod in self.mods.values():
             self._index_imports(mod)
             self._index_defs(mod, mod.tree.body, prefix=mod.name, cls=None)
+        from . import alpha
+
+        self.renamed_back = alpha.undo_renames(self)
 
     def _abs_module(self, mod: Mod, level: int, target: Optional[str]) -> str:
         """Resolve a relative import to a package-relative module name."""
